@@ -32,6 +32,10 @@ def structures():
         tpls, nodes = _nodes(labels, op)
         out[name] = {'ops': OPS, 'node_tpls': tpls, 'edge_tpls': {}, 'share': True,
                      'circuit': {'name': 'net', 'nodes': nodes, 'edges': []}, 'op': op}
+    l12 = [f'n{i}' for i in (3, 0, 1, 2, 4, 5, 6, 7, 8, 9, 10, 11)]
+    tpls, nodes = _nodes(l12, 'io')
+    out['S12'] = {'ops': OPS, 'node_tpls': tpls, 'edge_tpls': {}, 'share': True, 'op': 'io',
+                  'circuit': {'name': 'net', 'nodes': nodes, 'edges': []}}
     tpls, nodes = _nodes(['a', 'b'], 'io')
     tpls['R'] = [['ro', {}]]
     nodes = dict(nodes, r='R')
@@ -59,6 +63,7 @@ SELECTIONS = {
     'S2e': [[('a/io/u', 'N')], [('all/io/u', 'Nn')], [('b/io/u', 'N')]],
     'H1': [[('c1/a/io/u', 'N')], [('c1/all/io/u', 'Nn')], [('all/all/io/u', 'N')], [('all/all/io/u', 'Nn')],
            [('all/b/io/u', 'Nn')], [('c2/b/io/u', 'N1'), ('all/all/io/u', 'Nn')]],
+    'S12': [[('all/io/u', 'N')], [('all/io/u', 'Nn')], [('n5/io/u', 'N1'), ('all/io/u', 'N')]],
     'H2': [[('d1/c1/a/io/u', 'N')], [('all/all/all/io/u', 'Nn')], [('d1/c1/all/io/u', 'N')]],
 }
 
